@@ -31,7 +31,8 @@ def generate(seed, tier="quick"):
     total = rng.choice([0.3, 0.5, 1.0, 2.0, 4.0, 6.0])
     if world["solver"]["tol"] != "tight":
         total = min(total, 2.0)
-    ops = S.gen_history_ops(rng, world, total=total, n_max=rng.choice([2, 4, 8, 16, 40]))
+    ops = S.gen_history_ops(rng, world, total=total, n_max=rng.choice([2, 4, 8, 16, 40]),
+                            restart_share=0.1 if rng.random() < 0.25 else 0.0)
     if rng.random() < 0.25:
         out = []
         for op in ops:
@@ -179,6 +180,7 @@ def _execute(scn):
     counters["update_calls"] = len(wA.log) + len(wB.log)
     counters[f"twin.{t['kind']}"] = 1
     counters["faulted_updates"] = sum(1 for r in wA.log if r.get("fault"))
+    counters["restarts_through_store"] = sum(1 for r in wA.log if r["op"] == "restart")
     stats = {
         "counters": counters, "maxima": maxima,
         "sim_strain": float(sum(m.strain for m in wA.minerals)),
@@ -239,13 +241,13 @@ ASSUMPTIONS = [
     "comparison stops at an exact tie at the sliding threshold (counted as inconclusive_tie)",
     "axis-aligned initial textures (exactly vanishing slip invariants, the measure-zero set of C03) are not generated",
 ]
-PROBES = ["twin.rotate", "twin.symmetry", "rate_states_checked", "faulted_updates"]
+PROBES = ["restarts_through_store", "twin.rotate", "twin.symmetry", "rate_states_checked", "faulted_updates"]
 
 
 def warmup():
     from ..warm import warm_world
 
-    warm_world(restart=False, ints=False, regimes=(4, 6))
+    warm_world(restart=True, ints=False, regimes=(4, 6))
 
 
 def coverage_floor(counters, n_done):
